@@ -507,6 +507,7 @@ async function execute(spec, classes, trace) {
         W.lastReturn = null;
         const r = doCall(() => (m.special === "constructor" ? new classes[m.owner](...jsArgs) : m.special === "getter" ? selfH.w[m.name] : m.special === "iterator" ? ((it) => (it.done ? null : it.value))(selfH.w.next()) : m.static ? classes[m.owner][m.name](...jsArgs) : selfH.w[m.name](...jsArgs)));
         if (m.special) inc("special_method_" + m.special);
+        if (m.elide) inc("call_of_method_with_elided_return_lifetime");
         W.pendingCall = null;
         if (r.err && W.lastReturnIsErr && W.lastReturn && r.err.cause && typeof r.err.cause === "object") {
           // Result<_, Box<E>>: the binding throws an Error whose `cause` is E's wrapper; the program keeps it
